@@ -175,6 +175,54 @@ def run(cx: Cx):
         cx.ok('R-ORDER', f"running test on every entry->execute / execute->execute segment ({n_pairs} segments)",
               where=cx.where(fn), function=fn.qualname)
 
+    # ------------------------------------------------------------ clause 2b: multi-step requests (Model.execute with the scheduler inlined)
+    mfn, mps = scheduler_paths(cx, unroll=2, root=CORE + 'Model.execute')
+    TLOC = (CORE + 'SystemManager', 'timestep')
+    n_seg = 0
+    bad = None
+    for p in mps:
+        evs = p.events
+        marks = [(i, 'execute') for i, e in enumerate(evs) if is_system_execute_call(cx, e)]
+        clocks = [i for i, e in enumerate(evs) if e.kind == 'store' and e.data.get('loc') == TLOC]
+        # (a) running edge between consecutive executes, and before the first effect of the request
+        seq = sorted(marks + [(i, 'clock') for i in clocks])
+        prev = -1
+        last_exec = -1
+        for i, kind in seq:
+            if kind == 'execute':
+                lo = last_exec + 1
+                if not _running_edges(cx, evs[lo:i]):
+                    bad = ('running-test-before-each-execute', i, p,
+                           "Model.execute(n): there is a CFG path from the start of the request or from one System.execute to the next "
+                           "System.execute - possibly in a later step of the same request - that does not cross the running edge of a "
+                           "model-status test: systems run after completion")
+                    break
+                last_exec = i
+                n_seg += 1
+        if bad:
+            break
+        # (b) between the clock writes of consecutive steps the model must have been found running again
+        for a, b in zip(clocks, clocks[1:]):
+            n_seg += 1
+            if not _running_edges(cx, evs[a + 1:b]):
+                bad = ('clock-untouched-after-completion', b, p,
+                       "Model.execute(n): a later step of the same request advances the clock on a path that has not found the model "
+                       "running since the previous step: after completion mid-request the timestep keeps increasing")
+                break
+        if bad:
+            break
+        if clocks and not _running_edges(cx, evs[:clocks[0]]):
+            bad = ('running-test-dominates-every-effect', clocks[0], p,
+                   "Model.execute advances the clock on a path that never tested that the model is running")
+            break
+    if bad:
+        key, i, p, msg = bad
+        cx.violation('R-ORDER', mfn.qualname, key, msg, where=f"{mfn.module.relpath}:{p.events[i].line}", path=p.lines())
+    else:
+        cx.ok('R-ORDER', f"Model.execute(n) with the scheduler inlined: running test before every execute and between the clock writes of "
+              f"consecutive steps ({n_seg} segments on {len(mps)} paths)", where=cx.where(mfn), function=mfn.qualname)
+    cx.floor('Model.execute segments examined', n_seg, 4)
+
     # ------------------------------------------------------------ clause 3: batch drivers
     mexec = CORE + 'Model.execute'
     for q in (BATCH + '_run_model_for_batch', BATCH + '_run_model_for_search'):
